@@ -1089,7 +1089,9 @@ impl<W: Write> Ctx<W> {
                 format!("{}{}", prefix, unit.repeat((target / unit.len().max(1)).max(1)))
             };
             let mut best = u64::MAX;
-            for _rep in 0..3 {
+            // minimum of up to seven runs (fast runs are cheap to repeat and the minimum is what is robust against
+            // a busy machine); a run that is slow already is not repeated
+            for _rep in 0..7 {
                 let t0 = Instant::now();
                 let t = text.clone();
                 let p = parser.clone();
@@ -1104,8 +1106,8 @@ impl<W: Write> Ctx<W> {
                     return;
                 }
                 best = best.min(t0.elapsed().as_micros().min(2_000_000_000) as u64);
-                if best > 500_000 {
-                    break; // slow already: no need to repeat
+                if best > 500_000 || (_rep >= 2 && best > 50_000) {
+                    break; // slow already: no need to repeat further
                 }
             }
             sizes.push(text.len() as u64);
